@@ -92,10 +92,13 @@ Section OnProject.
     end.
   Definition p_rename (q : N * N) : result :=
     project_rename bi init call p_cx p_all (N.to_nat (fst q)) (snd q) false.
+  (* the code as it was found, before commits 3758d0a and 94dbab8 *)
+  Definition p_rename_as_found (q : N * N) : result :=
+    project_rename_as_found bi init call p_cx p_all (N.to_nat (fst q)) (snd q) false.
 
   (* a module file is moved although a token that denotes the module keeps its spelling *)
-  Definition left_behind (q : N * N) : bool :=
-    match p_rename q with
+  Definition left_behind_in (r : result) : bool :=
+    match r with
     | RChanges _ edits moves =>
         existsb (fun a =>
           existsb (fun jc =>
@@ -106,10 +109,12 @@ Section OnProject.
             (enum_from 0 p_cx)) moves
     | _ => false
     end.
+  Definition left_behind (q : N * N) : bool := left_behind_in (p_rename_as_found q).
+  Definition left_behind_now (q : N * N) : bool := left_behind_in (p_rename q).
 
   (* the name of a builtin is respelled *)
   Definition builtin_respelled (q : N * N) : bool :=
-    match p_key q, p_rename q with
+    match p_key q, p_rename_as_found q with
     | GBuiltin _, RChanges _ (_ :: _) _ => true
     | _, _ => false
     end.
@@ -130,11 +135,11 @@ Proof.
   - vm_compute. repeat split.
 Qed.
 
-(* ------------------------------------------------------------------ refutations (open findings) *)
-(* import mb as k / print(k.y): renaming k respells the two k and MOVES mb.py, while `mb` in the import statement -
-   a token whose PyName is that module - keeps its spelling *)
+(* ------------------------------------------------------------------ two defects that were found and fixed *)
+(* import mb as k / print(k.y): AS FOUND, renaming k respelled the two k and MOVED mb.py, while `mb` in the import
+   statement - a token whose PyName is that module - kept its spelling (fixed by commit 94dbab8) *)
 Lemma module_alias_refuted :
-  p_rename w_module_alias_moves_module_mods w_module_alias_moves_module_builtins
+  p_rename_as_found w_module_alias_moves_module_mods w_module_alias_moves_module_builtins
            w_module_alias_moves_module_idents w_module_alias_moves_module_init
            w_module_alias_moves_module_call w_module_alias_moves_module_odd w_module_alias_moves_module_prop w_module_alias_moves_module_q
   = RChanges false [(0%nat, [3; 7]%N)] [1%nat]
@@ -144,12 +149,31 @@ Lemma module_alias_refuted :
      = true.
 Proof. vm_compute. split; reflexivity. Qed.
 
-(* x = [1, 2] / print(len(x)): a rename at len is accepted and respells it *)
+(* the same rename now: the two k are respelled, nothing is moved, no token is left behind *)
+Lemma module_alias_fixed :
+  p_rename w_module_alias_moves_module_mods w_module_alias_moves_module_builtins
+           w_module_alias_moves_module_idents w_module_alias_moves_module_init
+           w_module_alias_moves_module_call w_module_alias_moves_module_odd w_module_alias_moves_module_prop w_module_alias_moves_module_q
+  = RChanges false [(0%nat, [3; 7]%N)] []
+  /\ left_behind_now w_module_alias_moves_module_mods w_module_alias_moves_module_builtins
+                 w_module_alias_moves_module_idents w_module_alias_moves_module_init
+                 w_module_alias_moves_module_call w_module_alias_moves_module_odd w_module_alias_moves_module_prop w_module_alias_moves_module_q
+     = false.
+Proof. vm_compute. split; reflexivity. Qed.
+
+(* x = [1, 2] / print(len(x)): AS FOUND, a rename at len was accepted and respelled it (fixed by commit 3758d0a) *)
 Lemma builtin_refuted :
   builtin_respelled w_builtin_renamed_mods w_builtin_renamed_builtins w_builtin_renamed_idents
                     w_builtin_renamed_init w_builtin_renamed_call w_builtin_renamed_odd w_builtin_renamed_prop w_builtin_renamed_q = true.
 Proof. vm_compute. reflexivity. Qed.
 
+(* now it is refused *)
+Lemma builtin_fixed :
+  p_rename w_builtin_renamed_mods w_builtin_renamed_builtins w_builtin_renamed_idents
+           w_builtin_renamed_init w_builtin_renamed_call w_builtin_renamed_odd w_builtin_renamed_prop w_builtin_renamed_q = RRefused.
+Proof. vm_compute. reflexivity. Qed.
+
+(* ------------------------------------------------------------------ refutations (open findings) *)
 (* z = 2 / print([z for z in range(z)]): outside C02's domain; renaming the global z leaves the z of range(z), which
    then denotes nothing: the conclusion of the alpha theorem fails on that token *)
 Definition cfi_m := mod0 w_comprehension_first_iterable_mods.
